@@ -67,7 +67,7 @@ TEXT = dict(
 
 # --- tie by translation (translators/go2lean, notes/go2lean.md + notes/go2lean-add-r.md; agreement theorems in lean/FitProps/C08Go2Lean.lean).
 # Kept as a separate block so that it never collides with edits of the dictionary above.
-PROP['regen'] = PROP['regen'] + ['go2lean:readbuffer']
+PROP['regen'] = PROP['regen'] + ['go2lean:readbuffer', 'go2lean:readbuffercap']
 PROP['go2lean_diff'] = PROP.get('go2lean_diff', []) + ['ReadBuffer']      # lean/Go2LeanDiff/<Topic>.lean: search for a differing argument when an agreement theorem breaks
 PROP['theorems'] = PROP['theorems'] + [
     'Fit.C08.C08_go2lean_consts',
